@@ -210,7 +210,8 @@ class relativedelta(object):
                 yday = nlyearday
             elif yearday:
                 yday = yearday
-                if yearday > 59:
+                if 59 < yearday < 366:
+                    # day 366 only exists in leap years and is their last day
                     self.leapdays = -1
             if yday:
                 ydayidx = [31, 59, 90, 120, 151, 181, 212,
